@@ -259,6 +259,8 @@ TRead ==
             /\ Chk("C04", "ReaderDoesNotPanic", Ev.panic = "")
             /\ Chk("C04", "ReaderAcceptsConformantFile", Ev.panic = "" => (Ev.open = "ok" /\ ~Ev.haserr))
             /\ Chk("C04", "RowsExact", (Ev.panic = "" /\ Ev.open = "ok" /\ ~Ev.haserr) => RoundTrip(Ev))
+            \* the same conformant foreign file through a fragmenting source
+            /\ Chk("C08", "FragmentationInvariant", "chunk" \in DOMAIN Ev => RoundTrip(Ev))
        [] Ev.mode = "regen" ->
             /\ Chk("C15", "ReaderDoesNotPanic", Ev.panic = "")
             /\ Chk("C15", "RegeneratedReaderReadsTheFile", Ev.panic = "" => (Ev.open = "ok" /\ ~Ev.haserr))
